@@ -2,3 +2,67 @@
 #![allow(unused)]
 //! Out-of-tree verification harness for rust-lightning: Kani proofs (cfg(kani)) and the native
 //! oracle binary used for counterexample replay and translator validation.
+
+/// Fixed-capacity writer: avoids `Vec<u8>` growth (symbolic-length Vec writers blow up CBMC).
+#[cfg(kani)]
+pub(crate) struct ArrWriter<const N: usize> {
+	pub buf: [u8; N],
+	pub len: usize,
+}
+
+#[cfg(kani)]
+impl<const N: usize> ArrWriter<N> {
+	pub fn new() -> Self {
+		ArrWriter { buf: [0u8; N], len: 0 }
+	}
+}
+
+#[cfg(kani)]
+impl<const N: usize> lightning::util::ser::Writer for ArrWriter<N> {
+	fn write_all(&mut self, data: &[u8]) -> Result<(), lightning::io::Error> {
+		let mut i = 0;
+		while i < data.len() {
+			// Out-of-capacity is a harness sizing error and shows up as a failed bounds check.
+			self.buf[self.len] = data[i];
+			self.len += 1;
+			i += 1;
+		}
+		Ok(())
+	}
+}
+
+/// Fixed-array reader: byte-indexed reads instead of slice re-slicing + memcpy out of a large
+/// array (which makes CBMC's symbolic execution crawl: ~1 s per byte on a 1961-byte buffer).
+#[cfg(kani)]
+pub(crate) struct ArrReader<'a, const N: usize> {
+	pub buf: &'a [u8; N],
+	pub pos: usize,
+}
+
+#[cfg(kani)]
+impl<'a, const N: usize> lightning::io::Read for ArrReader<'a, N> {
+	fn read(&mut self, out: &mut [u8]) -> lightning::io::Result<usize> {
+		let avail = N - self.pos;
+		let n = if out.len() < avail { out.len() } else { avail };
+		let mut i = 0;
+		while i < n {
+			out[i] = self.buf[self.pos + i];
+			i += 1;
+		}
+		self.pos += n;
+		Ok(n)
+	}
+}
+
+#[cfg(kani)]
+mod c11;
+#[cfg(kani)]
+mod c14;
+#[cfg(kani)]
+mod c05;
+#[cfg(kani)]
+mod c18;
+#[cfg(kani)]
+pub(crate) mod c12;
+#[cfg(kani)]
+mod c13;
